@@ -115,7 +115,7 @@ def second_operands(z, cls, dt, backend):
     zo_data = make_data(other_cls, odt, True)
     ops = [("itself", z), ("python int", 2), ("python float", 2.5), ("python bool", True), ("python complex", 1 + 2j),
            ("np.float32", np.float32(1.5)), ("np.int8", np.int8(3)), ("ndarray same shape", make_data(cls, dt, True)),
-           ("ndarray broadcast", np.arange(1, shape[-1] + 1).astype(float)), ("dimensionless Quantity", 2.0 * u.dimensionless_unscaled),
+           ("ndarray broadcast", np.arange(1, shape[-1] + 1).astype(float)), ("dimensionless Quantity", 2.0 * u.dimensionless_unscaled), ("percent Quantity", 50 * u.percent),
            ("signal same class", make_sig(cls, dt, backend, True))]
     if zo_data.shape == shape:
         ops.append(("signal other class", make_sig(other_cls, odt, backend, True)))
@@ -213,6 +213,13 @@ def check_call(res, case, uf, args, sub, kwargs=None):
             res.violation(f"{site}|values", f"{name}: values differ from the ufunc on the underlying arrays "
                           f"(got dtype {gv.dtype}, reference dtype {np.asarray(wc).dtype}) [{sub}]", case, sub)
             return
+        for a_ in args:
+            if isinstance(a_, pb.Signal):
+                if g.data is a_.data or (isinstance(g.data, np.ndarray) and isinstance(a_.data, np.ndarray) and g.data.size
+                                         and np.shares_memory(g.data, a_.data)):
+                    res.violation(f"{site}|result aliases an operand", f"{name}: the out-of-place result shares its data container with an "
+                                  f"operand (an in-place change of the result would change the operand) [{sub}]", case, sub)
+                    return
         if case["backend"] == "dask" and not isinstance(g.data, da.Array):
             res.violation(f"{site}|not lazy", f"{name}: Dask-backed operands gave {type(g.data).__name__} data [{sub}]", case, sub)
     res.outcome(name)
@@ -417,6 +424,55 @@ def forms_case(case, res):
         if {k: repr(getattr(zz, k)) for k in invariants.ATTRS if hasattr(zz, k)} != meta_before:
             res.violation("in-place|metadata", f"{ops} changed metadata", case, {"ops": list(ops)})
         res.hits["in-place chains"] += 1
+    # ---- in-place operators with every operand kind, mirrored on a raw copy (incl. scaled dimensionless Quantities)
+    if kind in "fc" and be == "numpy":
+        operands = [("python float", 2.5), ("ndarray", make_data(cls, dt, True)), ("signal", make_sig(cls, dt, be, True)),
+                    ("dimensionless Quantity", 2.0 * u.dimensionless_unscaled), ("percent Quantity", 50 * u.percent),
+                    ("km/m Quantity", 0.002 * u.km / u.m), ("np.float32", np.float32(0.5))]
+        import operator as _op
+        for oname, other in operands:
+            for opname, op in (("+=", _op.iadd), ("-=", _op.isub), ("*=", _op.imul), ("/=", _op.itruediv)):
+                zz = make_sig(cls, dt, be)
+                ref = np.array(materialise(zz.data))
+                sub = {"op": opname, "operand": oname}
+                try:
+                    rref = op(ref, raw(other))
+                    rref = np.asarray(rref.value if isinstance(rref, u.Quantity) else rref)
+                    werr = None
+                except Exception as e:
+                    werr = e
+                try:
+                    r = op(zz, other)
+                    gerr = None
+                except Exception as e:
+                    r, gerr = None, e
+                res.transitions += 1
+                if werr is not None:
+                    if gerr is None:
+                        res.violation(f"in-place|{opname}|reference raises", f"z {opname} {oname}: the raw array raises "
+                                      f"{type(werr).__name__} but the signal accepted it [{sub}]", case, sub)
+                    continue
+                if gerr is not None:
+                    res.violation(f"in-place|{opname}|raised", f"z {opname} {oname}: {type(gerr).__name__}: {gerr} [{sub}]", case, sub)
+                    continue
+                if r is not zz or not values_equal(zz.data, rref):
+                    res.violation(f"in-place|{opname}|values", f"z {opname} {oname} differs from the same statement on the raw array "
+                                  f"[{sub}]", case, sub)
+        res.hits["in-place with scaled dimensionless Quantity"] += 1
+        # result of an out-of-place ufunc, then modified in place: the operand must not follow
+        for uf in (np.conjugate, np.positive, np.negative, np.absolute):
+            a0 = make_sig(cls, dt, be)
+            keep = np.array(materialise(a0.data))
+            try:
+                b0 = uf(a0)
+                b0 *= 3
+                np.add(b0, 1, out=b0)
+            except Exception:
+                continue
+            res.transitions += 3
+            if not values_equal(a0.data, keep):
+                res.violation("history|operand follows its result", f"b = {uf.__name__}(a); b *= 3 changed a", case, {"ufunc": uf.__name__})
+        res.hits["result modified in place, operand unchanged"] += 1
     # ---- refused: methods, matmul
     z = make_sig(cls, dt, be)
     for what, fn in (("reduce", lambda: np.add.reduce(z)), ("reduce axis=1", lambda: np.add.reduce(z, axis=1)),
@@ -493,7 +549,7 @@ def main(argv=None):
         PID, gen_cases=gen_cases, check_case=check_case, describe=describe,
         required_hits=["reference raises: signal call raises too", "result dtype not admitted -> ValueError", "two outputs",
                        "python float/complex scalar with integer or bool signal", "signals of two classes", "operators",
-                       "out= returns the same object", "two-output out= tuple", "in-place chains", "ufunc keyword arguments", "refused with TypeError",
+                       "out= returns the same object", "two-output out= tuple", "in-place chains", "in-place with scaled dimensionless Quantity", "result modified in place, operand unchanged", "ufunc keyword arguments", "refused with TypeError",
                        "array conversion", "conversion, in-place write, conversion"],
         assumptions=["NumPy dispatches a binary ufunc to a strict-subclass operand first, so for (superclass signal, subclass signal) the "
                      "type of the result is left open", "for Dask data an error may surface at compute time"],
